@@ -179,6 +179,7 @@ typedef struct Pipe {
 
 typedef struct NetKnobs {
 	int seg_style;        /* 0 write-sized, 1 one-byte, 2 random chunks, 3 hdr split, 4 coalesce */
+	int seg_late;         /* 1: the handshake flights travel write-sized, seg_style applies from the first application record on */
 	int max_chunk;
 	int64_t max_lat_ns;
 	int short_write;      /* 0 never, N: probability N/16 per send */
@@ -204,6 +205,8 @@ typedef struct Conn {
 
 extern Conn g_conns[NET_MAX_CONN];
 extern char g_net_violation[160];
+extern const char *g_net_violation_tag;
+void net_guard_array(const void *base, size_t size, const char *name);
 extern int g_nconns;
 
 void  net_reset(void);
